@@ -1,7 +1,7 @@
 """C16 -- the async API is behaviourally identical to the sync API."""
 import oracles, scen
 from units.mk import Unit, COMMON
-Unit([("shell", scen.gen_shell, 2), ("sync", scen.gen_sync_read, 2), ("push", scen.gen_push, 1), ("handshake", scen.gen_handshake, 2), ("mixed", scen.gen_mixed, 2),
+Unit([("shell", scen.gen_shell, 2), ("sync", scen.gen_sync_read, 2), ("push", scen.gen_push, 1), ("handshake", scen.gen_handshake, 2), ("mixed", scen.gen_mixed, 2), ("reconnect", scen.gen_reconnect_push, 1),
       ("fail", scen.gen_fail, 2), ("stall", scen.gen_stall, 2), ("shortwrite", scen.gen_short_writes, 1), ("corrupt", scen.gen_corrupt, 1), ("guards", scen.gen_guards, 1)],
      COMMON,
      "every scenario family is executed through AdbDevice and AdbDeviceAsync on identical scripted transports; the two implementations' observables (bytes "
